@@ -1159,6 +1159,17 @@ class Engine:
                         return r
                 if self.is_variant(segs[-2], head):
                     return Enum(head, vals, segs[-2])
+            if len(segs) == 1:
+                # variant of an enum of another crate is printed without its path
+                owners = [en for en, info in self.prog.src.enum_info.items() if head in info['values']]
+                if len(owners) == 1:
+                    if not vals:
+                        r = self.unit_variant(owners[0], head)
+                        if r is not None:
+                            return r
+                    return Enum(head, vals, owners[0])
+                if head in STD_VARIANT_OWNER and not (head in self.prog.src.structs):
+                    return Enum(head, vals, STD_VARIANT_OWNER[head])
             return Agg(vals, ty=head)       # tuple struct / unit struct
         if k == 'closure':
             return Agg([self.operand(f, loc, o) for o in rv[2]], ty='{closure@%s}' % rv[1])
